@@ -459,6 +459,12 @@ func genCliCase(rng *rand.Rand) cliCase {
 	if rng.Intn(40) == 0 {
 		flags = append(flags, "--no-such-option")
 	}
+	if rng.Intn(40) == 0 {
+		flags = append(flags, []string{"-x", "-kx", "-Z"}[rng.Intn(3)]) // unknown short option, also inside a bundle
+	}
+	if rng.Intn(30) == 0 {
+		flags = append(flags, []string{"--keep=true", "--keep=false", "--force=1", "--stdout=0", "--quiet=2", "--decompress=false"}[rng.Intn(6)])
+	}
 	rng.Shuffle(len(flags), func(i, j int) { flags[i], flags[j] = flags[j], flags[i] })
 	var ops []string
 	for _, f := range c.Files {
